@@ -191,3 +191,14 @@ Print Assumptions C19_refusal_has_reason.
 Theorem C19_die_test_pinned : die_test_pinned = true.
 Proof. vm_compute. reflexivity. Qed.
 Print Assumptions C19_die_test_pinned.
+
+(* The keep-alive branch of takeMsg is reached only with both queues empty: the
+   driver is asked to reconnect (a real driver then resets the Irc, clearing the
+   queues) only by takeMsg and only when nothing accepted is pending -- so a
+   reconnect never loses a message.  (A throttled call with a non-empty queue
+   stops at the throttle; the table pins that nesting.) *)
+Theorem C19_reconnect_only_idle : forall c filt s o s' evs,
+  step c filt s o = (s', evs) -> In Reconnect evs ->
+  (exists now, o = Take now) /\ pending s' = [].
+Proof. exact reconnect_only_idle. Qed.
+Print Assumptions C19_reconnect_only_idle.
